@@ -74,6 +74,8 @@ pub static SCENARIOS: &[ScenarioDef] = &[
         "two threads release the last two handles of one graph concurrently"),
     scen!("rc/handover-into-reclaimed", handover_into_reclaimed,
         "C02: a thread that took Rc::snapshot of a fresh object hands the Rc to a reader, which swaps it into a link of a node that a stalled dropper has left with a stale stamp and that is reclaimed by its parent's cascade: only the link's own stamp protects the fresh object"),
+    scen!("rc/long-cascade", long_cascade,
+        "C02/C12: one cascade over 420 nodes during which the epoch advances three times (the cascade re-pins every 128 nodes); a reader takes node 400 through a side link, removes that link (stamping the node in the current epoch) and keeps its Snapshot while the cascade arrives"),
     scen!("rc/first-downgrade", first_downgrade,
         "C03: two threads downgrade an object that never had a weak pointer (the flag-setting CAS of one loses) while a third clones and drops strong references"),
     scen!("rc/latency-vs-holder", latency_vs_holder,
@@ -1122,6 +1124,55 @@ fn concurrent_release(p: &Params) -> Program {
                 c.rounds(4);
             }),
         ],
+        ..base(p)
+    }
+}
+
+/// The age test of every node of a cascade must use the epoch of the moment, not the one the
+/// cascade started in. Scheduling points: the driver's own (`Deref`) only - the cascading thread
+/// can be interrupted at node 395 and nowhere else, so the space is tiny although the cascade is
+/// long.
+fn long_cascade(p: &Params) -> Program {
+    Program {
+        classes: 1 << crate::sched::CLASS_DEREF,
+        stack: 32 << 20,
+        setup: Some(body(|c, w| {
+            let g = c.pin();
+            let mut next: Option<Rc<Node>> = None;
+            for id in (1..=420u32).rev() {
+                let nd = c.new_node_with(id, None, None, None, 0b1011);
+                if let Some(r) = next.take() {
+                    c.store(&c.node(&nd).next[0], r, &g);
+                }
+                if id == 400 {
+                    c.store(&w.roots[1], c.clone_rc(&nd), &g);
+                }
+                next = Some(nd);
+            }
+            c.store(&w.roots[0], next.unwrap(), &g);
+            c.unpin(g);
+            c.rounds(4);
+        })),
+        threads: vec![
+            body(|c, w| {
+                let g = c.pin();
+                c.store(&w.roots[0], Rc::null(), &g);
+                c.unpin(g);
+                c.rounds(4);
+            }),
+            body(|c, w| {
+                let g = c.pin();
+                let s = c.load(&w.roots[1], &g);
+                if !s.s.is_null() {
+                    c.sderef(s);
+                    c.store(&w.roots[1], Rc::null(), &g);
+                    c.sderef(s);
+                    c.sderef(s);
+                }
+                c.unpin(g);
+            }),
+        ],
+        drain_max: 60,
         ..base(p)
     }
 }
